@@ -420,25 +420,29 @@ theorem step_inv (s : MState) (hinv : Inv s) (ev : Ev) (hen : Enabled s ev) :
     have hl : ¬ bits.length ≠ p.pieces.length := by rw [hlen, hpl]; simp
     exact ⟨_, _, by simp only [mstep, hp, hl, if_false] <;> rfl,
       inv_flags s hinv a p { p with pieces := bits, amInterested := chosen.isSome } hp rfl rfl rfl rfl⟩
-  | «have» a i =>
+  | «have» a i chosen =>
     obtain ⟨⟨p, hp⟩, hi, hpl⟩ := hen
     rw [hp] at hpl; simp only [Option.some.injEq, forall_eq'] at hpl
     obtain ⟨hpm, _⟩ := findPeer_some hp
     have hl : ¬ i ≥ p.pieces.length := by rw [hpl]; omega
-    by_cases hcond : s.statuses.getD i .have = .missing ∧ p.amInterested = false
-    · by_cases hassign : p.choked = false ∧ p.pieceIndex = none
-      · refine ⟨_, _, by simp only [mstep, hp, hl, if_false, hcond, hassign, and_self, if_true] <;> rfl, ?_⟩
-        have hcp : ∀ j, counted j p = true → (none : Option Nat) = some j := by
-          intro j h; rw [counted_imp_idx p j h] at hassign; simp at hassign
-        have := inv_relThenRes s hinv a p
-          { p with pieces := p.pieces.set i true, pieceIndex := some i, amInterested := true, rx := some i }
-          hp rfl none (some i) hcp (by intro j; simp [counted, hassign.1]) (by simp) (by simp)
-        rw [modifyAt_const_eq_incr s.statuses i hcond.1]
-        simpa [relThenRes, hassign.1] using this
-      · exact ⟨_, _, by simp only [mstep, hp, hl, if_false, hcond, hassign, and_self, if_true] <;> rfl,
-          inv_flags s hinv a p { p with pieces := p.pieces.set i true, amInterested := true } hp rfl rfl rfl rfl⟩
-    · exact ⟨_, _, by simp only [mstep, hp, hl, if_false, hcond] <;> rfl,
+    cases chosen with
+    | none =>
+      exact ⟨_, _, by simp only [mstep, hp, hl, if_false] <;> rfl,
         inv_flags s hinv a p { p with pieces := p.pieces.set i true } hp rfl rfl rfl rfl⟩
+    | some c =>
+      by_cases hcond : p.amInterested = false
+      · by_cases hassign : p.choked = false ∧ p.pieceIndex = none
+        · refine ⟨_, _, by simp only [mstep, hp, hl, if_false, hcond, hassign, and_self, if_true] <;> rfl, ?_⟩
+          have hcp : ∀ j, counted j p = true → (none : Option Nat) = some j := by
+            intro j h; rw [counted_imp_idx p j h] at hassign; simp at hassign
+          have := inv_relThenRes s hinv a p
+            { p with pieces := p.pieces.set i true, pieceIndex := some c, amInterested := true, rx := some c }
+            hp rfl none (some c) hcp (by intro j; simp [counted, hassign.1]) (by simp) (by simp)
+          simpa [relThenRes, hassign.1] using this
+        · exact ⟨_, _, by simp only [mstep, hp, hl, if_false, hcond, hassign, and_self, if_true] <;> rfl,
+            inv_flags s hinv a p { p with pieces := p.pieces.set i true, amInterested := true } hp rfl rfl rfl rfl⟩
+      · exact ⟨_, _, by simp only [mstep, hp, hl, if_false, hcond] <;> rfl,
+          inv_flags s hinv a p { p with pieces := p.pieces.set i true } hp rfl rfl rfl rfl⟩
   | pieceDone a chosen =>
     obtain ⟨p, y, hp, hrx⟩ := hen
     obtain ⟨hpm, _⟩ := findPeer_some hp
@@ -657,7 +661,7 @@ theorem T1_have_absorbing (s s' : MState) (ev : Ev) (r : Reply) (hstep : mstep s
       split at hstep
       · simp at hstep
       · simp only [Out.ok.injEq] at hstep; rw [← hstep.1]; exact hi
-  | «have» a k =>
+  | «have» a k chosen =>
     simp only [mstep] at hstep
     cases hp : findPeer s a with
     | none => simp [hp] at hstep
@@ -665,19 +669,16 @@ theorem T1_have_absorbing (s s' : MState) (ev : Ev) (r : Reply) (hstep : mstep s
       simp only [hp] at hstep
       split at hstep
       · simp at hstep
-      · split at hstep
-        · rename_i hcond
+      · cases chosen with
+        | none => simp only [Out.ok.injEq] at hstep; rw [← hstep.1]; exact hi
+        | some c =>
+          simp only at hstep
           split at hstep
-          · simp only [Out.ok.injEq] at hstep; rw [← hstep.1]
-            -- the piece being reserved was Missing, so it is not the owned piece i
-            have hki : k ≠ i := by
-              intro e; subst e
-              have := hcond.1; rw [getD_eq, hi] at this; simp at this
-            have hik : ¬ i = k := fun e => hki e.symm
-            show (modifyAt s.statuses k (fun _ => Status.reserved 1))[i]? = some Status.have
-            rw [modifyAt_getElem?, if_neg hik]; exact hi
+          · split at hstep
+            · simp only [Out.ok.injEq] at hstep; rw [← hstep.1]
+              exact hmod _ c incr hincr hi
+            · simp only [Out.ok.injEq] at hstep; rw [← hstep.1]; exact hi
           · simp only [Out.ok.injEq] at hstep; rw [← hstep.1]; exact hi
-        · simp only [Out.ok.injEq] at hstep; rw [← hstep.1]; exact hi
   | pieceDone a chosen =>
     simp only [mstep] at hstep
     cases hp : findPeer s a with
@@ -719,16 +720,15 @@ theorem T1_have_absorbing (s s' : MState) (ev : Ev) (r : Reply) (hstep : mstep s
         · exact hi
 
 /-- **(iv)** A peer is only ever asked for a piece it advertised and the client still lacks — given what the
-    chooser guarantees (C13) about its pick; the `Have` branch asks for the very piece just advertised, which is
-    Missing. -/
+    chooser guarantees (C13) about its pick: every request the manager hands out, on any path (Unchoke, Have, piece
+    stored, piece cancelled), names the chooser's answer. -/
 theorem T4_asked_only_advertised_and_lacking (s s' : MState) (ev : Ev) (c : Nat) (wi : Bool)
     (hstep : mstep s ev = .ok s' (.request c wi)) :
     match ev with
     | .unchoke _ chosen => chosen = some c
     | .pieceDone _ chosen => chosen = some c
     | .pieceCancel _ chosen => chosen = some c
-    | .have a i => i = c ∧ s.statuses.getD c .have = .missing ∧
-        ∃ p', findPeer s' a = some p' ∧ hasPiece p'.pieces c = true
+    | .have _ _ chosen => chosen = some c
     | _ => False := by
   cases ev with
   | add a n => simp [mstep] at hstep
@@ -790,7 +790,8 @@ theorem T4_asked_only_advertised_and_lacking (s s' : MState) (ev : Ev) (c : Nat)
         | some c' => dsimp only at this; split at this
                      · simp at this
                      · simp only [Reply.request.injEq] at this; simp [this.1]
-  | «have» a i =>
+  | «have» a i chosen =>
+    show chosen = some c
     simp only [mstep] at hstep
     cases hp : findPeer s a with
     | none => simp [hp] at hstep
@@ -798,21 +799,15 @@ theorem T4_asked_only_advertised_and_lacking (s s' : MState) (ev : Ev) (c : Nat)
       simp only [hp] at hstep
       split at hstep
       · simp at hstep
-      · rename_i hlen
-        split at hstep
-        · rename_i hcond
+      · cases chosen with
+        | none => simp at hstep
+        | some c' =>
+          simp only at hstep
           split at hstep
-          · simp only [Out.ok.injEq, Reply.request.injEq] at hstep
-            obtain ⟨hs', hic, _⟩ := hstep
-            subst hic
-            refine ⟨rfl, hcond.1, ?_⟩
-            rw [← hs']
-            refine ⟨_, findPeer_setPeer s _ a p _ hp rfl, ?_⟩
-            simp only [hasPiece, List.getD_eq_getElem?_getD]
-            have : i < p.pieces.length := by omega
-            simp [List.getElem?_set, this]
+          · split at hstep
+            · simp only [Out.ok.injEq, Reply.request.injEq] at hstep; simp [hstep.2.1]
+            · simp at hstep
           · simp at hstep
-        · simp at hstep
 
 /-! ### Non-vacuity (tests): the L1 history of the finding, on the repaired model -/
 
